@@ -213,9 +213,11 @@ func (s *state) lit(kind int) string {
 	case 5: // tuple
 		var parts []string
 		for i := 0; i < n; i++ {
-			parts = append(parts, fmt.Sprintf("%s: %s", alphabet[t.Draw(len(alphabet))], s.small()))
+			parts = append(parts, fmt.Sprintf("%s: %s", s.attrName(), s.small()))
 		}
 		return "(" + strings.Join(parts, ", ") + ")"
+	case 7: // a configured standard-library function: it is a value too, and may hold state of its own
+		return []string{"//encoding.json.encoder(())", "//encoding.json.encoder((indent: ' '))", "//encoding.json.encoder((strict: false))", "//seq.join(',')"}[t.Draw(4)]
 	default: // plain set
 		var parts []string
 		for i := 0; i < n; i++ {
@@ -238,6 +240,15 @@ func (s *state) small() string {
 	default:
 		return fmt.Sprintf("{%d}", s.t.Draw(3))
 	}
+}
+
+// attrName draws a tuple attribute name; '&x' is the view counterpart of x (one replaces the other).
+func (s *state) attrName() string {
+	n := alphabet[s.t.Draw(len(alphabet))]
+	if s.t.Bool(1, 5) {
+		return "'&" + n + "'"
+	}
+	return n
 }
 
 func (s *state) key() string {
@@ -358,6 +369,12 @@ func (s *state) opOn(i int, e *entry, forceKind string) *op {
 		kinds = tupleKinds
 	case "num":
 		return &op{src: fmt.Sprintf("%s + %d", e.name, t.Draw(3)), operands: []int{i}, kind: "num"}
+	case "fn":
+		j := s.pick("dict", "array", "tuple", "str", "num", "set", "rel")
+		if j < 0 {
+			return nil
+		}
+		return &op{src: fmt.Sprintf("%s(%s)", e.name, s.pool[j].name), operands: []int{i, j}, kind: "apply"}
 	default:
 		kinds = setKinds
 	}
@@ -538,7 +555,7 @@ func (s *state) opOn(i int, e *entry, forceKind string) *op {
 			o.operands = append(o.operands, j)
 			o.src = fmt.Sprintf("%s +> %s", n, m)
 		} else {
-			o.src = fmt.Sprintf("%s +> (%s: %s)", n, alphabet[t.Draw(len(alphabet))], s.small())
+			o.src = fmt.Sprintf("%s +> (%s: %s)", n, s.attrName(), s.small())
 		}
 	case "pat-tuple":
 		o.src = fmt.Sprintf("let (%s: _, ...r) = %s; r", alphabet[t.Draw(len(alphabet))], n)
@@ -617,7 +634,7 @@ func Run(c *run.Ctx) {
 	// Seeds of the pool, built by different routes so that backing capacity varies.
 	nSeeds := t.Range(1, 5)
 	for i := 0; i < nSeeds; i++ {
-		kind := t.Draw(7)
+		kind := t.Draw(8)
 		src := s.lit(kind)
 		switch t.Draw(4) {
 		case 1:
